@@ -394,7 +394,7 @@ func (fr *Frame) frameFact(st *State, k string) *Term {
 		return nil
 	}
 	allowed, whole := fr.frameAllowed()
-	if k == "$alloc" || strings.HasPrefix(k, "box$") || strings.HasPrefix(k, "cell:") || whole[k] || fr.top.lockedKeys[k] {
+	if k == "$alloc" || strings.HasPrefix(k, "box$") || strings.HasPrefix(k, "cell:") || localLogKey(k) || whole[k] || fr.top.lockedKeys[k] {
 		return nil
 	}
 	nv, ok := st.heap[k]
